@@ -1,25 +1,26 @@
 #!/bin/bash
-# tools/seedconfirm.sh <Cxx> <A|B>
+# tools/seedconfirm.sh <Cxx> <A|B|C|D>
 # Independent confirmation of a seeded change in a scratch worktree of /repo's HEAD:
 # applies the patch, builds, runs the pinned suite, runs the demonstration (must
 # fail), reverts, runs the demonstration again (must pass).  Prints one line.
 set -u
 export GOFLAGS=-mod=mod GOPROXY=off GOSUMDB=off GOTOOLCHAIN=local
+root=${SEEDROOT:-/tmp/seed}
 prop=$1; letter=$2
-cw=/tmp/seed/$prop/cw
-out=/tmp/seed/$prop/confirm_$letter
+cw=$root/$prop/cw
+out=$root/$prop/confirm_$letter
 mkdir -p "$out"
 if [ ! -d "$cw" ]; then git -C /repo worktree add -q --detach "$cw" HEAD || exit 2; fi
 git -C "$cw" checkout -q -- . ; git -C "$cw" checkout -q --detach "$(git -C /repo rev-parse HEAD)"
 demo() {
-  d=/tmp/seed/$prop/OUT/demo$letter
+  d=$root/$prop/OUT/demo$letter
   ( cd "$d" || exit 3
     export THRIFTGO_REPO=$cw REPO=$cw
     if [ -f run.sh ]; then timeout 1500 sh run.sh "$cw"
     elif ls *_test.go >/dev/null 2>&1 && [ ! -f main.go ]; then timeout 1500 go test -count=1 ./...
     else timeout 1500 go run . "$cw"; fi )
 }
-git -C "$cw" apply "/tmp/seed/$prop/OUT/patch$letter.diff" || { echo "confirm $prop$letter: PATCH DOES NOT APPLY on current HEAD"; exit 1; }
+git -C "$cw" apply "$root/$prop/OUT/patch$letter.diff" || { echo "confirm $prop$letter: PATCH DOES NOT APPLY on current HEAD"; exit 1; }
 ( cd "$cw" && GOFLAGS=-mod=readonly go build ./... ) > "$out/build.log" 2>&1; b=$?
 ( cd "$cw" && GOFLAGS=-mod=readonly go test -vet=off -count=1 ./... ) > "$out/suite.log" 2>&1; s=$?
 demo > "$out/demo_with.log" 2>&1; dw=$?
